@@ -108,7 +108,23 @@ func admissionRun(transport string, policy dns.MsgAcceptFunc, pkts [][]byte) ([]
 		started := false
 		srv.NotifyStartedFunc = func() { started = true }
 		srv.MsgAcceptFunc = policy
-		srv.MsgInvalidFunc = func(m []byte, err error) { cur.invalid++ }
+		// the invalid-message callback is installed through the Server's field or — for the cases whose first packet has
+		// an odd octet sum — process-wide through dns.DefaultMsgInvalidFunc with the field left nil (Server.init fills it in)
+		viaGlobal := false
+		if len(pkts) > 0 {
+			sum := 0
+			for _, b := range pkts[0] {
+				sum += int(b)
+			}
+			viaGlobal = sum%2 == 1
+		}
+		if viaGlobal {
+			old := dns.DefaultMsgInvalidFunc
+			dns.DefaultMsgInvalidFunc = func(m []byte, err error) { cur.invalid++ }
+			defer func() { dns.DefaultMsgInvalidFunc = old }()
+		} else {
+			srv.MsgInvalidFunc = func(m []byte, err error) { cur.invalid++ }
+		}
 		srv.Handler = dns.HandlerFunc(func(w dns.ResponseWriter, q *dns.Msg) {
 			cur.handler++
 			cur.handlerReq = q.Copy()
